@@ -63,7 +63,7 @@ structure Elem where
   deriving DecidableEq, Repr
 
 /-- `ReducedWord/ReducedDword/ReducedLarge::is_valid` as the property requires it (`raw < M`;
-    the code's `ReducedLarge::is_valid` uses `is_le`, see `Props/C13`). -/
+    `ReducedLarge::is_valid` used `is_le` before /repo 1b55f20). -/
 def Valid (r : Ring) (x : Nat) : Prop := ∃ v, v < r.m ∧ x = v * 2 ^ r.k
 
 instance (r : Ring) (x : Nat) : Decidable (Valid r x) :=
@@ -196,12 +196,12 @@ def Elem.sqr (W : Nat) (a : Elem) : Elem := ⟨a.ring, sqrRaw W a.ring a.raw⟩
 
 -- ---------------------------------------------------------------- pow.rs
 
-/-- `ReducedWord::one` etc. as the property requires it: the residue `1 mod m`, pre-shifted.
-    (The code has `1 << shift`, which for `m = 1` is the normalised divisor itself — not a valid
-    element; see `oneRawAsIs` and `Props/C13.one_asIs_counterexample`.) -/
+/-- `ReducedWord::one` etc.: the residue `1 mod m`, pre-shifted (`m = 1` ⇒ 0 since /repo d3d05f5;
+    before, `1 << shift` was returned also for `m = 1`, where it is the normalised divisor itself —
+    see `oneRawAsIs` and the regression theorem `Props/C13.one_asIs_counterexample`). -/
 def oneRaw (r : Ring) : Nat := if r.m = 1 then 0 else 2 ^ r.k
 
-/-- `ReducedWord::one` as written: `Self(1 << ring.shift())` -/
+/-- `ReducedWord::one` before /repo d3d05f5: `Self(1 << ring.shift())` -/
 def oneRawAsIs (r : Ring) : Nat := 2 ^ r.k
 
 /-- `pow_helper(ring, lhs, rhs, exp, bits)`: `lhs^(2^bits) * rhs^(exp mod 2^bits)` by
@@ -337,11 +337,11 @@ def Elem.beq (a b : Elem) : Except PanicKind Bool :=
 
 -- ---------------------------------------------------------------- reducer.rs (num_modular::Reducer<UBig>)
 
-/-- `Reducer::check` as the property requires it: `target < M` and the low `shift` bits are zero
-    (the code compares with `is_le` for multi-word rings, see `checkAsIs`). -/
+/-- `Reducer::check`: `target < M` and the low `shift` bits are zero (strict for multi-word rings
+    since /repo 1b55f20; before, `is_le`, see `rCheckAsIs`). -/
 def rCheck (r : Ring) (t : Nat) : Bool := t < r.M && t % 2 ^ r.k = 0
 
-/-- `Reducer::check` as written (reducer.rs): single/double through num-modular (`<`), a small
+/-- `Reducer::check` before /repo 1b55f20 (reducer.rs): single/double through num-modular (`<`), a small
     target in a large ring is accepted unconditionally, a large one is compared with `is_le`. -/
 def rCheckAsIs (W : Nat) (r : Ring) (t : Nat) : Bool :=
   match r.kind with
@@ -352,7 +352,7 @@ def rCheckAsIs (W : Nat) (r : Ring) (t : Nat) : Bool :=
 /-- `reduce_once` with the strict comparison the property needs -/
 def reduceOnce (r : Ring) (t : Nat) : Nat := if rCheck r t then t else t - r.M
 
-/-- `reduce_once` as written -/
+/-- `reduce_once` before /repo 1b55f20 -/
 def reduceOnceAsIs (W : Nat) (r : Ring) (t : Nat) : Nat := if rCheckAsIs W r t then t else t - r.M
 
 /-- `Reducer::add` = `reduce_once(lhs + rhs)`; `Reducer::dbl` = `reduce_once(target << 1)` -/
